@@ -767,7 +767,9 @@ func Main() {
 				}
 				st.streams["public path: queries through AddFace/SetQuery/ResolveFace/FontMetadata"] += int64(len(qs))
 				if i < 2 {
-					asp, idx, _ := resolve(fs, buildMap(fs, w.Aspects), w.Query)
+					var asp font.Aspect
+					idx := -1
+					vrun.Catch(func() { asp, idx, _ = resolve(fs, buildMap(fs, w.Aspects), w.Query) })
 					run.Sample(map[string]any{"path": "public", "aspects": w.Aspects, "query": w.Query, "resolved_face": idx, "resolved_metadata": asp})
 				}
 			}
